@@ -11,7 +11,7 @@ from multiprocessing import Pool
 
 from . import core
 
-ALL_LAYOUTS = '{"SP", "TAB", "NL", "CRNL", "CMT", "BL"}'
+ALL_LAYOUTS = '{"SP", "TAB", "NL", "CRNL", "CR", "CMT", "BL"}'
 
 # ----------------------------------------------------------------------------------------------
 # concrete lexemes for the abstract ids of MPSyntax
@@ -118,7 +118,8 @@ class Lexemes(object):
         raise ValueError(v)
 
 
-LAYOUT_TEXT = {"SP": " ", "TAB": "\t", "NL": "\n", "CRNL": "\r\n", "CMT": " # a comment, with = ( ) [ ] : \"quotes\"\n", "BL": "\n\n"}
+# (the lone carriage return is followed by a blank so that it never joins a following line feed into one CR LF break)
+LAYOUT_TEXT = {"SP": " ", "TAB": "\t", "NL": "\n", "CRNL": "\r\n", "CR": "\r ", "CMT": " # a comment, with = ( ) [ ] : \"quotes\"\n", "BL": "\n\n"}
 
 
 def render_text(toks, out, lex):
